@@ -1,7 +1,6 @@
 CONSTANTS
   Ms = {3, 4}
-  CnMaxs = {2000, 100}
-  FsSet = {0, 1, 2}
+  Modes = {0, 1, 2, 3}
   XMax = 2
   QMax = 1
   Margin = 20000
